@@ -6,10 +6,12 @@ w=/work/repo-mut
 cd $w && git checkout -q -- . && git clean -fdq && git apply $d/patch.diff || exit 2
 cd /verif
 for p in "$@"; do
+  cp evidence/$p.json /verif/.work/ev-backup-$p.json 2>/dev/null
   out=$(VERIF_REPO=$w ./check $p 2>&1 | grep -E "^VIOLATION|^KNOWN|quick:" | cut -c1-220)
   echo "[$(basename $d)] $out"
   rp=$(echo "$out" | grep -o "replay=[^ ]*" | head -1 | cut -d= -f2)
   case "$rp" in *.json) cp "$rp" /verif/seeded/$(basename $d)/detected-replay-$p.json 2>/dev/null;; esac
   cp evidence/replays/$p-broken-obligation.txt /verif/seeded/$(basename $d)/detected-broken-$p.txt 2>/dev/null
+  cp /verif/.work/ev-backup-$p.json evidence/$p.json 2>/dev/null   # evidence/ describes /repo, not the scratch tree
 done
 cd $w && git checkout -q -- . && git clean -fdq
